@@ -4,6 +4,11 @@
 #include <yaclib/fault/detail/fiber/scheduler.hpp>
 
 #include <cstdio>
+#ifdef YACLIB_VERIF
+#  include <yaclib/fault/verif.hpp>
+
+#  include <vector>
+#endif
 
 namespace yaclib::fault {
 
@@ -13,6 +18,30 @@ static std::uint32_t sTickLength = 10;
 
 detail::fiber::FiberBase* Scheduler::GetNext() {
   YACLIB_DEBUG(_queue.Empty(), "Queue can't be empty");
+#ifdef YACLIB_VERIF
+  if (auto* pick_fiber = verif::gHooks.pick_fiber) {
+    std::vector<detail::fiber::Node*> nodes;
+    std::vector<std::uint64_t> ids;
+    std::int64_t self = -1;
+    for (std::size_t i = 0;; ++i) {
+      auto* node = _queue.GetElement(i, false);
+      if (i != 0 && node == nodes.front()) {
+        break;
+      }
+      auto* fiber = static_cast<detail::fiber::FiberBase*>(static_cast<detail::fiber::BiNodeScheduler*>(node));
+      if (fiber == sCurrent) {
+        self = static_cast<std::int64_t>(i);
+      }
+      nodes.push_back(node);
+      ids.push_back(fiber->GetId());
+    }
+    if (auto r = pick_fiber(ids.data(), ids.size(), self); r >= 0) {
+      auto* picked = nodes[static_cast<std::size_t>(r) % nodes.size()];
+      picked->Erase();
+      return static_cast<detail::fiber::FiberBase*>(static_cast<detail::fiber::BiNodeScheduler*>(picked));
+    }
+  }
+#endif
   auto* next = PollRandomElementFromList(_queue);
   return static_cast<detail::fiber::FiberBase*>(static_cast<detail::fiber::BiNodeScheduler*>(next));
 }
@@ -91,6 +120,11 @@ void Scheduler::RunLoop() {
     auto* next = GetNext();
     sCurrent = next;
     TickTime();
+#ifdef YACLIB_VERIF
+    if (auto* resume = verif::gHooks.resume) {
+      resume(next->GetId());
+    }
+#endif
     next->Resume();
     if (next->GetState() == detail::fiber::Completed && !next->IsThreadAlive()) {
       delete next;
@@ -145,6 +179,20 @@ void SetRandomListPick(std::uint32_t k) noexcept {
 }
 
 Node* PollRandomElementFromList(BiList& list) {
+#ifdef YACLIB_VERIF
+  if (auto* choose = verif::gHooks.choose) {
+    std::size_t size = 0;
+    auto* first = list.GetElement(0, false);
+    do {
+      ++size;
+    } while (list.GetElement(size, false) != first);
+    if (auto r = choose(verif::kPick, size); r >= 0) {
+      auto* picked = list.GetElement(static_cast<std::size_t>(r) % size, false);
+      picked->Erase();
+      return picked;
+    }
+  }
+#endif
   auto rand_pos = detail::GetRandNumber(2 * sRandomListPick);
   auto reversed = false;
   if (rand_pos >= sRandomListPick) {
